@@ -165,6 +165,127 @@ def api_oracle(b):
         signal.alarm(0)
 
 
+
+# ----------------------------------------------------------------------------- correspondence with Psd/Resave.v
+IMPORTS = ["Base.Prelude", "Psd.Codec", "Psd.Model", "Psd.Corr", "Psd.Resave"]
+
+
+def _container_level():
+    """worker initialiser: empty the payload-class registries, so that every tagged-block / image-resource payload stays raw
+    bytes - the implementation at the level of the container model (payload classes are C01's and the oracle stream's)"""
+    import logging
+    import warnings
+
+    warnings.simplefilter("ignore")
+    logging.disable(logging.CRITICAL)
+    from psd_tools.psd import image_resources, tagged_blocks
+
+    tagged_blocks.TYPES.clear()
+    image_resources.TYPES.clear()
+
+
+def _mask_body_len_o(m):
+    n = 18 + (18 if m.real_flags is not None else 0)
+    p = m.parameters
+    if m.flags.parameters_applied and p is not None:
+        n += 1 + (p.user_mask_density is not None) + 8 * (p.user_mask_feather is not None) + \
+            (p.vector_mask_density is not None) + 8 * (p.vector_mask_feather is not None)
+    return n + (-n) % 4
+
+
+def guard_bits_o(d):
+    """twin of Resave.guard_bits on the psd_tools objects (payloads raw): bit k set = the guard of finding F-C02-(k+1) fails"""
+    from . import format_common as F
+
+    l = d.layer_and_mask_information
+    li, g, bs = l.layer_info, l.global_layer_mask_info, l.tagged_blocks
+    v = d.header.version
+    bits = 0
+    if li is not None and li.layer_count == 0 and (li.layer_records is not None or li.channel_image_data is not None):
+        bits |= 1
+    if li is not None and bs is None:
+        bits |= 2
+    if g is not None and g.overlay_color is None:
+        tl = 0
+        for t in (bs.values() if bs else []):
+            nb = 8 if (v == 2 and F.key_int(t.key) in F.BIG_KEYS()) else 4
+            n = nb + len(F.payload_bytes(t.data, padding=1, version=v))
+            tl += 8 + n + (-n) % 4
+        if not (17 <= 4 + tl + 2 + len(d.image_data.data)):
+            bits |= 4
+    if g is None and bs:
+        bits |= 8
+    if li is not None and li.layer_records is not None:
+        for r in li.layer_records:
+            m = r.mask_data
+            if m is not None and (_mask_body_len_o(m) >= 36) != (m.real_flags is not None):
+                bits |= 16
+    return bits
+
+
+def impl_outcome(b):
+    """twin of Resave.resave_outcome: the implementation's read / save / re-read / save-again on b, canonicalised.
+    returns (list of ints, info)"""
+    from psd_tools.psd import PSD
+
+    from . import format_common as F
+    from .core import exc_code, h63_list
+
+    enc = "macroman"
+    info = {}
+    signal.signal(signal.SIGALRM, _alarm)
+    signal.alarm(40)
+    try:
+        try:
+            d = PSD.read(io.BytesIO(b))
+        except _Hang:
+            return [98], info
+        except Exception as e:
+            return [exc_code(e)], info
+        c1 = F.c_psd_o(d, enc)
+        gb = guard_bits_o(d)
+        info["guard_bits"] = gb
+        out = [0, h63_list(0, c1), gb]
+        try:
+            f = io.BytesIO()
+            n = d.write(f)
+            s = f.getvalue()
+        except _Hang:
+            return out + [98], info
+        except Exception as e:
+            info["stage"] = "save"
+            return out + [exc_code(e)], info
+        out += [0, n, h63_list(0, list(s))]
+        cw = F.c_psd_o(d, enc)  # write() refreshed the channel lengths in place
+        try:
+            d2 = PSD.read(io.BytesIO(s))
+        except Exception as e:
+            info["stage"] = "reread"
+            return out + [exc_code(e)], info
+        c2 = F.c_psd_o(d2, enc)
+        eq = c2 == cw
+        info["eq"] = eq
+        pyeq = bool(d2 == d)
+        if pyeq != eq and not (eq and not struct_diffs(d, d2)):
+            info["canon_vs_eq"] = (pyeq, eq)
+        out += [0, h63_list(0, c2), int(eq)]
+        try:
+            f = io.BytesIO()
+            d2.write(f)
+            s2 = f.getvalue()
+        except Exception as e:
+            info["stage"] = "resave"
+            return out + [exc_code(e)], info
+        info["same"] = s2 == s
+        return out + [0, int(s2 == s)], info
+    finally:
+        signal.alarm(0)
+
+
+def _cwork(item):
+    cid, b = item
+    return cid, impl_outcome(b)
+
 # ---- known findings: each classifier is the exact class of structural differences the defect produces
 def _paths(fl):
     obs = fl.get("observed")
